@@ -35,13 +35,16 @@ Theorem C05_terminates : forall (c : cfg) (len : nat -> nat) (s : st) (a : act) 
   Inv c len s -> node_of a < nn c -> step c s a = Some s' -> Phi c len s' < Phi c len s.
 Proof. exact Term.step_decreases. Qed.
 
-(* no early return: a finished process has no task in flight and all its producers are finished; so when the
-   sink (the driver, which consumes from every leaf) has finished, everything upstream of it has *)
+(* no early return: a finished process has no task in flight and all producers of its files are finished; so when
+   the sink (the driver, which consumes from every leaf) has finished, every process upstream of it that executes
+   tasks has.  The statement is about file edges: the feeder of a parameter port may still be about to close its
+   port when its consumer has finished ([C05_param_feeder_may_lag]); such a feeder executes no task, and the repaired
+   runProcs waits for every started process before Run returns (C05_code_conforms, the WaitGroup in the skeleton) *)
 Theorem C05_not_early : forall (c : cfg) (len : nat -> nat) (gc : gcfg),
   wf c len -> (forall v L, slen c v = Some L -> length (sitems gc v) = L) ->
   forall sched s g, sched_ok c sched -> grun c gc (init c) ginit sched = Some (s, g) ->
   forall v, v < nn c -> rn (ns s v) = RFin ->
-  fl (ns s v) = [] /\ (forall y, In y (ins c v) -> rn (ns s (esrc c y)) = RFin).
+  fl (ns s v) = [] /\ (forall y, In y (ins c v) -> epar c y = false -> rn (ns s (esrc c y)) = RFin).
 Proof.
   intros c len gc WF SL sched s g Hok Hrun v Hv HF.
   destruct (reachable_inv c len gc WF sched s g Hok Hrun) as [I1 [I2 _]].
@@ -60,6 +63,26 @@ Proof.
   exact (final_complete c len WF s I HF).
 Qed.
 
+(* a process with a file port (edge 0, from source 0) and a parameter port (edge 1, from feeder 1), empty streams:
+   the process sees its file port closed, leaves the loop without reading the parameter port and finishes while
+   the feeder has not yet closed *)
+Definition lagcfg : cfg := {| nn := 3; edges := [(0,2);(1,2)]; slen := fun v => if Nat.ltb v 2 then Some 0 else None;
+                              cap := 1; epar := fun e => Nat.eqb e 1 |}.
+Theorem C05_param_feeder_may_lag :
+  wf lagcfg (fun _ => 0) /\
+  exists sched s, run lagcfg (init lagcfg) sched = Some s /\ rn (ns s 2) = RFin /\ rn (ns s 1) <> RFin.
+Proof.
+  split.
+  - constructor; simpl.
+    + intros e He. unfold E in He; simpl in He. unfold esrc, edst; simpl. destruct e as [|[|e]]; simpl; lia.
+    + lia.
+    + intros v L. destruct v as [|[|v]]; simpl; intros H; inversion H; subst; split; reflexivity.
+    + intros v Hv. destruct v as [|[|[|v]]]; simpl in *; try discriminate; try lia.
+    + reflexivity.
+  - exists [ABegin 0 []; AFin 0; ABegin 2 [0; 1]; ARecv 2; AEndRound 2; AFin 2]. eexists. split; [vm_compute; reflexivity|].
+    split; [reflexivity|discriminate].
+Qed.
+
 Theorem C05_nonvacuous : wf dia (fun _ => 2).
 Proof. exact dia_wf. Qed.
 
@@ -68,4 +91,5 @@ Print Assumptions C05_no_deadlock.
 Print Assumptions C05_terminates.
 Print Assumptions C05_not_early.
 Print Assumptions C05_all_done_at_return.
+Print Assumptions C05_param_feeder_may_lag.
 Print Assumptions C05_nonvacuous.
